@@ -640,6 +640,19 @@ class Emitter:
                 te = self.ty(s[2])
             self.bind(s[1], te, env)
             body, tb = self.stmts(rest, env, exp, result)
+            if s[1][0] == 'ptuple' and all(q[0] == 'pid' for q in s[1][1]):
+                # tuple pattern: bind to a temporary and project (no pattern-matching `let`: unfolding the
+                # definition must never have to evaluate the right-hand side to a constructor)
+                self.tmp = getattr(self, 'tmp', 0) + 1
+                t = 'sel%d' % self.tmp
+                names = [q[1] for q in s[1][1]]
+                projs = ''
+                for i, n in enumerate(names):
+                    if n == '_':
+                        continue
+                    proj = '.2' * i + ('.1' if i < len(names) - 1 else '')
+                    projs += 'let %s := %s%s\n  ' % (lean_ident(n), t, proj)
+                return 'let %s := %s\n  %s%s' % (t, se, projs, body), tb
             return 'let %s := %s\n  %s' % (self.pat(s[1]), se, body), tb
         if k == 'assign':
             if s[1][0] != 'path' or len(s[1][1]) != 1:
@@ -671,9 +684,18 @@ class Emitter:
                 return self.stmts(rest, env, exp, result)
             sa, _ = self.stmts(a[1], dict(env), None, av)
             sb, _ = self.stmts(b[1], dict(env), None, av) if b else self.vars_tuple(av, env)
-            pat = '(' + ', '.join(lean_ident(n) for n in av) + ')' if len(av) > 1 else lean_ident(av[0])
             body, tb = self.stmts(rest, env, exp, result)
-            return 'let %s := if %s then (\n  %s)\n  else (\n  %s)\n  %s' % (pat, sc, sa, sb, body), tb
+            if len(av) == 1:
+                return 'let %s := if %s then (\n  %s)\n  else (\n  %s)\n  %s' % (lean_ident(av[0]), sc, sa, sb, body), tb
+            # several assigned variables: bind the tuple to a temporary and project (no pattern-matching `let`,
+            # so that unfolding the definition never has to evaluate the condition)
+            self.tmp = getattr(self, 'tmp', 0) + 1
+            t = 'sel%d' % self.tmp
+            projs = ''
+            for i, n in enumerate(av):
+                proj = '.2' * i + ('.1' if i < len(av) - 1 else '')
+                projs += 'let %s := %s%s\n  ' % (lean_ident(n), t, proj)
+            return 'let %s := if %s then (\n  %s)\n  else (\n  %s)\n  %s%s' % (t, sc, sa, sb, projs, body), tb
         if k in ('tail', 'expr_nosemi'):
             if rest:
                 return self.stmts(rest, env, exp, result)
